@@ -479,10 +479,9 @@ impl<A, B> Vec2<A, B> {
     /// Remove all elements.
     #[inline]
     pub fn clear(&mut self) {
-        unsafe {
-            self.drop_in_place();
-            self.len = 0;
-        }
+        // Forget the elements before dropping them (like `truncate` does):
+        // if a destructor panics, the elements must not be dropped again.
+        self.truncate(0);
     }
 
     /// Remove the last element.
